@@ -164,6 +164,42 @@ def unit_resolve(eng, name, lz):
     return r
 
 
+PSEUDO_NAMES = {"postadd": "x+", "postsub": "x-", "immediate": "#x", "deferred": "@x", "register": "%x", "call": "x(y)"}
+
+
+def unit_pseudo_resolve(eng, name, lz):
+    """the addressing-mode / postfix pseudo-operators used as a VALUE ('.word #x', '.word x+', '.word 1(2)'): whether the operand is known
+    already or later, resolve never raises; evaluating it reports 'unexpected-value' and yields the operand's value"""
+    infix = name == "call"
+    uname = "resolve[%s,%s]" % (name, "".join("L" if x else "R" for x in lz))
+
+    def run(eng):
+        install_wait(eng)
+        eng.I = {}
+        l, a = leaf_value(eng, "a", lz[0])
+        if infix:
+            r, b = leaf_value(eng, "b", lz[1])
+            tok = new(eng, "operators", name, l, r)
+            eng.I.update(a=a, b=b)
+        else:
+            tok = new(eng, "operators", name, l)
+            eng.I.update(a=a)
+        return eng.call(eng.getattr(tok, "resolve"), [{}], {})
+
+    def post(eng, outcome):
+        kind, val = outcome
+        eng.prove("no-exception(also when the operand is not known yet)", kind == "return")
+        if kind != "return":
+            return
+        errs = [e[1] for e in errors(eng)]
+        eng.prove("reports-unexpected-value", errs == ["unexpected-value"])
+        eng.prove("value-is-the-operand's-value", final(val) == (eng.I["b"] if infix else eng.I["a"]))
+    r = verify(eng, uname, run, post, func="operators.%s.resolve" % ("InfixOperator" if infix else "UnaryOperator"))
+    for o in r["obligations"]:
+        o["cfg"] = dict(kind="pseudo", op=PSEUDO_NAMES[name], lz=list(lz))
+    return r
+
+
 def unit_number(eng):
     def run(eng):
         eng.I = {}
@@ -327,6 +363,9 @@ def units(tier):
         us.append(("body[%s]" % n, "unit_infix_body", dict(name=n)))
         for lz in itertools.product((False, True), repeat=2):
             us.append(("resolve[%s,%s]" % (n, lz), "unit_resolve", dict(name=n, lz=lz)))
+    for n in PSEUDO_NAMES:
+        for lz in (itertools.product((False, True), repeat=2) if n == "call" else [(False,), (True,)]):
+            us.append(("resolve[%s,%s]" % (n, lz), "unit_pseudo_resolve", dict(name=n, lz=tuple(lz))))
     for name, fn, kw in deferred_c.all_units():
         if name.startswith("poly"):
             us.append((name, fn, kw))
@@ -352,6 +391,17 @@ def replay(o, tree):
     from spec import expr_spec as spec
     cfg = o.get("cfg") or {}
     w = o.get("witness") or {}
+    if cfg.get("kind") == "poly-nested":
+        return deferred_c.replay_poly_nested(cfg, w, tree)
+    if cfg.get("kind") == "poly-selfref":
+        return deferred_c.replay_poly_selfref(cfg, w, tree)
+    if cfg.get("kind") == "pseudo":
+        sp = {"x+": "lab+", "x-": "lab-", "#x": "#lab", "@x": "@lab", "%x": "%lab", "x(y)": "lab(2)"}[cfg["op"]]
+        srcs = [".word %s\nlab:\n" % sp, "lab:\n.word %s\n" % sp]
+        jobs = [{"kind": "asm", "sources": [s_]} for s_ in srcs]
+        res = driver.native(jobs, tree)
+        obs = [[r["status"], r.get("exc"), [d[1] for d in r.get("diags", [])][:2]] for r in res]
+        return dict(jobs=jobs, expected="a reported error (unexpected-value / excess-hash), not an internal exception", observed=obs, reproduced=any(r["status"] == "crash" for r in res))
     if cfg.get("kind") == "alphabet" or o.get("unit", "").startswith("radix50.pack_to_int"):
         from contracts import c15
         return c15.replay(o, tree)
